@@ -27,8 +27,9 @@ Mk(st, lvl) ==
 
 (* blob verification: the statement is chosen by name; under a name no statement has, nothing is trusted - although the
    document's GLOBAL statement lists the very same stores (single-store lists only) *)
-BlobSpace == {[Mk([scheme |-> sc, contents |-> cont, listed |-> <<r>>, other |-> o], lvl) EXCEPT !.api = "VerifyBlob", !.sel = sl] :
-                 sc \in {"x509", "sa"}, cont \in [StoreRefs -> Contents], r \in StoreRefs, lvl \in Levels, sl \in {"ok", "nopolicy"}, o \in Others}
+BlobSpace == {[Mk([scheme |-> sc, contents |-> cont, listed |-> <<r>>, other |-> o], lvl) EXCEPT !.api = "VerifyBlob", !.sel = sl, !.plugin = pl] :
+                 sc \in {"x509", "sa"}, cont \in [StoreRefs -> Contents], r \in StoreRefs, lvl \in Levels, sl \in {"ok", "nopolicy"}, o \in Others,
+                 pl \in {"none", "TI"}}       \* (a verification plugin that vouches for the identity does not vouch for the trust stores)
 (* (other # "": a second statement, whose name is a near miss of the applicable one's, lists that store) *)
 (* two instances (constant BlobOnly): the union of the two large sets costs TLC a minute of normalisation *)
 InputSpace == IF BlobOnly THEN BlobSpace ELSE {Mk(st, lvl) : st \in StoreSpace, lvl \in Levels}
